@@ -2,7 +2,8 @@
 (* X05 - Address.tla under Apalache: the actions are those of the original module (INSTANCE);
    inductive invariant for behaviours of ANY length, every N <= BoundN terminals, every range
    within 0 .. BoundA + 1, both readings of the upper end, every pool Addrs \subseteq 1 .. BoundA and
-   two tasks per terminal (scan and init) in any state.  (MC_Address: N = 3, 4 addresses, at
+   two tasks per terminal (scan and init) in any state; pre-assigned addresses may be shared by
+   several terminals (UniqueAssigned, not Unique, is the invariant).  (MC_Address: N = 3, 4 addresses, at
    most 4 tasks.)  The proof for ANY N, range and pool is Ind_AddressProof.tla (TLAPS).        *)
 EXTENDS Integers, FiniteSets
 
@@ -43,7 +44,6 @@ Next == A!DNext
 (* the initial states of MC_Address, for every N <= BoundN and every range *)
 Init == \E nn \in 1 .. BoundN :
           /\ conf \in [TermsOf(nn) -> Addrs \cup {0}]
-          /\ A!Unique
           /\ rng \in [lo : 0 .. BoundA, hi : 0 .. (BoundA + 1)]
           /\ answered = {} /\ written = {} /\ used = {}
           /\ task \in [IdsOf(nn) -> [kind : Kinds, pos : TermsOf(nn), pc : {"read", "pick", "done"}, cand : {0}]]
@@ -56,7 +56,7 @@ Owned == \A k \in DOMAIN task : Busy(k) =>
             /\ \A j \in DOMAIN task : (j # k /\ Busy(j)) => task[j].cand # task[k].cand
             /\ task[k].pc = "write" => \A u \in DOMAIN conf : conf[u] # task[k].cand
 
-IndInv == A!Unique /\ A!UsedCovers /\ A!WrittenInRange /\ Owned /\ A!DesignSafe
+IndInv == A!UniqueAssigned /\ A!UsedCovers /\ A!WrittenInRange /\ Owned /\ A!DesignSafe
 
 IndInit == \E nn \in 1 .. BoundN :
           /\ conf \in [TermsOf(nn) -> 0 .. BoundA]
